@@ -445,6 +445,17 @@ def h_boundary(top: int, fill_i: int) -> None:
                 res.append(u)
             if res[0] != res[1]:
                 raise Violation(f"entry-points-differ :: uuid_from_short_str({s!r}) gives {res[0]!r} but uuid_from_str gives {res[1]!r}")
+            if nxt % 8 == 0:
+                # one character more is a different length, whatever the character is (incl. what '$' or strip() would forgive)
+                for s2 in (s + "\n", s + " ", "\n" + s, s + "\r\n", s + alphabet[0], s[:-1], s + "\x00"):
+                    for fn in (mod.uuid_from_short_str, mod.uuid_from_str):
+                        try:
+                            u = fn(s2)
+                        except ValueError:
+                            continue
+                        except Exception as e:  # noqa
+                            raise Violation(f"reject-{type(e).__name__} :: {fn.__name__}({s2!r}) raises {type(e).__name__} instead of ValueError")
+                        raise Violation(f"accepts-wrong-length :: {fn.__name__}({s2!r}) ({len(s2)} characters) is accepted as {u}")
 
 
 def h_non_str(kind: int) -> None:
